@@ -18,9 +18,10 @@ The expiry path (`InFlightRequests::poll_expired`) never aborts a handler before
 is armed for `max (ceil_ms (now + clampTimeout (deadline - now))) wheel.elapsed`, the part of the time
 until the deadline that the clamp (`MAX_DEADLINE_TIMEOUT`) cut off is kept in the entry
 (`deadline_remainder`), so that `tick + remainder ≥ deadline` throughout (`TInv.dl`); a timer that fires
-with a nonzero remainder is re-armed with (the next clamped part of) the rest (`TInv.rearm`); only a timer
-that fires with nothing left expires the request, and the timer wheel never yields an entry before its
-tick (`DelayQ.pollExpired_not_early`). -/
+while some of the remainder is still left after taking off how late the poll is (`late = now − tick`,
+`rest = remainder − late`) is re-armed with (the next clamped part of) the rest (`TInv.rearm`); only a timer
+that fires with nothing left (`rest = 0`, hence `deadline ≤ tick + remainder ≤ now`) expires the request,
+and the timer wheel never yields an entry before its tick (`DelayQ.pollExpired_not_early`). -/
 theorem C06_never_early (limit : Option Nat) (respCap tcap : Nat) (coupled : Bool) (ops : List SOp)
     (c : Sys) (hc : c = ops.foldl applyOp (initSys limit respCap tcap coupled)) :
     ∀ e ∈ c.s.execs, e.aborted = true → cancelSeen e.id c.s.obs ∨ c.s.dropped = true ∨ e.deadline ≤ c.now := by
@@ -198,6 +199,23 @@ theorem C06_far_deadline_witness :
       c3.s.inflight = [] ∧ c3.s.timers.len = 0 ∧
       c3.s.obs.all (fun o => match o with | .tNext _ (.item (.cancel _ _)) => false | _ => true) = true ∧
       c3.s.dropped = false ∧ c3.s.poisoned = false) := by
+  decide
+
+/-- **A late poll does not push the deadline out (model-level witness).**  A request with a deadline three
+clamps away is read at clock 0 (its timer is armed with one clamp, two clamps are kept as `remainder`); the
+channel is then not polled until the deadline.  The poll at `3 · clamp` finds the timer two clamps late:
+`rest = remainder − late = 0`, so the request expires at that poll — handler aborted, table and timer queue
+empty — instead of being re-armed for another full clamp (as the code did before lateness was taken into
+account).  (`tarpc/src/server/in_flight_requests.rs`, `poll_expired`:
+`late = now.saturating_duration_since(expired.deadline())`, `rest = deadline_remainder.saturating_sub(late)`.) -/
+theorem C06_late_poll_witness :
+    let C := Gen.serverTimerClampSecs * 1000000000
+    let c1 := [SOp.injectReq 1 (3 * C) ⟨0, .given 0, false⟩ 0, .pollServer, .pollExec 0].foldl applyOp
+      (initSys none 1 1 true)
+    let c2 := [SOp.advance (3 * C), .pollServer, .pollExec 0].foldl applyOp c1
+    c1.s.inflight = [{ id := 1, timerKey := 0, rid := 0, remainder := 2 * C }] ∧
+    c2.now = 3 * C ∧ c2.s.execs.map (fun e => (e.deadline, e.aborted, e.phase)) = [(3 * C, true, .done)] ∧
+    c2.s.inflight = [] ∧ c2.s.timers.len = 0 ∧ c2.s.dropped = false ∧ c2.s.poisoned = false := by
   decide
 
 end TarpcModel.Server
